@@ -21,19 +21,25 @@ RULE = ('(a) model-based: G-doc ASTs (safe text policy) over the constructs the 
 ASSUMPTIONS = ['only unambiguous uses are generated (rules listed in pbt/gdoc.py: adjacency of lists/indented code, emphasis delimiters touching words, '
                'no heading-like or metadata-like first line, code lines inside quotes without leading blanks)',
                'the reference renderer is pbt/htmlmodel.py; constructs it does not model are not generated (reported under classes.not_modelled)',
-               'reference links with a parenthesised title, raw HTML, citations/glossaries/abbreviations, nested lists beyond one continuation paragraph are not modelled']
+               'reference links with a parenthesised title, raw HTML, citations/glossaries/abbreviations, lists nested deeper than one level are not modelled']
 
-CFG_MMD = gdoc.Cfg(inlines=['t', 'em', 'st', 'code', 'link', 'auto', 'img', 'esc', 'ent', 'bare', 'smart', 'fnref', 'imath', 'sup'],
-                   blocks=['para', 'atx', 'setext', 'hr', 'fence', 'icode', 'quote', 'list', 'table', 'deflist', 'figure', 'math'])
-CFG_COMPAT = gdoc.Cfg(inlines=['t', 'em', 'st', 'code', 'link', 'auto', 'img', 'esc', 'ent', 'bare'],
-                      blocks=['para', 'atx', 'setext', 'hr', 'icode', 'quote', 'list'])
+LEAD = st.sampled_from([0, 0, 0, 1, 2, 3])
+# reference labels: some equal the words headings are made of, so that a heading's automatic label collides with an explicit definition
+# (documented: the explicit definition wins)
+REFIDS = st.sampled_from(['ref1', 'Ref Two', 'r-3', 'alpha', 'bravo', 'Charlie'])
+CFG_MMD = gdoc.Cfg(inlines=['t', 'em', 'st', 'code', 'link', 'reflink', 'auto', 'img', 'esc', 'ent', 'bare', 'smart', 'fnref', 'imath', 'sup'],
+                   blocks=['para', 'atx', 'setext', 'hr', 'fence', 'icode', 'quote', 'list', 'table', 'deflist', 'figure', 'math'],
+                   lead=LEAD, sublists=True, refids=REFIDS, cell_inlines=['t', 'em', 'code', 'smart', 'esc', 'ent'])
+CFG_COMPAT = gdoc.Cfg(inlines=['t', 'em', 'st', 'code', 'link', 'reflink', 'auto', 'img', 'esc', 'ent', 'bare'],
+                      blocks=['para', 'atx', 'setext', 'hr', 'icode', 'quote', 'list'], lead=LEAD, sublists=True, refids=REFIDS)
 CFG_COMP = gdoc.Cfg(inlines=['t', 'em', 'st', 'code', 'link', 'esc', 'smart'], blocks=['para', 'atx', 'setext', 'hr', 'fence', 'icode', 'quote'], max_blocks=8)
-NOT_MODELLED = ['reference links/images', 'raw HTML', 'citations', 'glossary', 'abbreviations', 'captions on tables', 'metadata variables', '{{TOC}}']
+NOT_MODELLED = ['reference images, parenthesised reference titles', 'raw HTML', 'citations', 'glossary', 'abbreviations', 'captions on tables', 'metadata variables', '{{TOC}}']
 
 
 def strategy(tier):
     return st.one_of(
-        st.fixed_dictionaries({'kind': st.just('model'), 'doc': gdoc.document(CFG_MMD), 'smart': st.booleans(), 'compat': st.just(False)}),
+        st.fixed_dictionaries({'kind': st.just('model'), 'doc': gdoc.document(CFG_MMD), 'smart': st.booleans(), 'compat': st.just(False),
+                               'collide': st.sampled_from([0, 0, 1, 2])}),
         st.fixed_dictionaries({'kind': st.just('model'), 'doc': gdoc.document(CFG_COMPAT), 'smart': st.booleans(), 'compat': st.just(True)}),
         st.fixed_dictionaries({'kind': st.just('comp'), 'doc': gdoc.document(CFG_COMP), 'smart': st.booleans(), 'compat': st.booleans()}),
     )
@@ -60,13 +66,15 @@ def unify_angles(node, state, allow):
     return node
 
 
-def normalise(doc, compat, allow_known=False):
+def normalise(doc, compat, allow_known=False, collide=0):
     """Generator rules that separate unambiguous documented use from the rest (each one a documented precedence)."""
     d = dict(doc)
 
-    def fix(bs):
+    def fix(bs, top=True):
         out = []
         for b in bs:
+            if b[0] == 'atx' and len(b) > 4 and not top:
+                b = list(b[:4]) + [0]      # marker indentation only at the left margin of the document (inside a quote it would add up with the quote's own blank)
             if b[0] == 'figure' and compat:
                 b = ['para', [[['img', b[1], b[2], b[3]]]], 'nl']
             if b[0] == 'para':
@@ -78,12 +86,23 @@ def normalise(doc, compat, allow_known=False):
                     lines.append(l)
                 b = ['para', lines, b[2]]
             elif b[0] == 'quote':
-                b = ['quote', fix(b[1])] + list(b[2:])
+                b = ['quote', fix(b[1], False)] + list(b[2:])
+            elif b[0] == 'sublist':
+                b = ['sublist', fix([b[1]], False)[0], b[2]]
             elif b[0] == 'list':
-                b = list(b[:4]) + [[[first, fix(rest)] for first, rest in b[4]]] + list(b[5:])
+                items = [[first, fix(rest, False)] for first, rest in b[4]]
+                lead = b[5] if len(b) > 5 else 0
+                if any(rest for _, rest in items) or not top:
+                    lead = 0       # an indented marker plus indented continuation lines: the nesting would be a matter of interpretation
+                b = list(b[:4]) + [items, lead]
             out.append(b)
         return out
     out = fix(list(d['blocks']))
+    # a heading whose automatic label equals an explicitly defined reference label: the explicit definition wins (documented precedence)
+    words = [r[0] for r in (d.get('defs') or []) if r[0].lower() in ('alpha', 'bravo', 'charlie')]
+    if collide and words and not compat:
+        h = ['atx', 2, [['t', words[0].lower()]], collide == 2, 0]
+        out = ([h] + out) if collide == 1 else (out + [h])
     st8 = [None, 0]
     out = unify_angles(out, st8, allow_known)
     d['angles_escaped'] = st8[1]
@@ -107,7 +126,7 @@ def depth(xs):
 def check(case, ctx):
     w = ctx.w
     compat, smart = case['compat'], case['smart']
-    doc = normalise(case['doc'], compat, bool(case.get('allow_known')))
+    doc = normalise(case['doc'], compat, bool(case.get('allow_known')), case.get('collide', 0))
     if doc.pop('angles_escaped'):
         ctx.cls('excluded_known_angle_pair')
     doc['meta'] = None
@@ -126,6 +145,12 @@ def check(case, ctx):
         ctx.cls('model_compat' if compat else 'model_mmd')
         for k in kinds:
             ctx.cls('block_' + k)
+        if doc.get('defs'):
+            ctx.cls('reference_links')
+            if case.get('collide') and any(b[0] == 'atx' and b[2] == [['t', r[0].lower()]] for b in doc['blocks'] for r in doc['defs']):
+                ctx.cls('heading_label_collides_with_definition')
+        if re.search(r'^ {1,3}(#|[*+-] |\d+\. )', src, re.M):
+            ctx.cls('indented_marker')
         if got != exp:
             # first differing line, for the signature
             gl, el = got.split('\n'), exp.split('\n')
